@@ -611,11 +611,26 @@ def o17_sites(tier):
     return res
 
 
+def o17_removed_dir(tier):
+    """Updating a recorded match set after a directory was removed equals a rescan: the watcher
+    must be told about every recorded match beneath the removed directory (shared with C14/O14.5)."""
+    import stepup.core.workflow as wfm
+
+    res = ObResult()
+    pre = "0 <= di < 6 and 0 <= g0 < 6 and 0 <= g1 < 6 and 0 <= nglobs <= 2"
+    res.bounds = pre + " (pools of directories, patterns and recorded files in harness/c14.py)"
+    res.encoded.append(enc(wfm.Workflow.relevant_paths_under))
+    xh.run_condition(res, "C17", "O17.7", "harness.c14", "relevant_under", pre, 400 if tier == "quick" else 900, what="a removed directory reports exactly the recorded glob matches beneath it")
+    res.nontrivial = 1
+    return res
+
+
 NCHUNK = 8
 OBLIGATIONS = [Ob(f"O17.1.{k}", mk_match(k, NCHUNK), f"matcher == standard recursive glob (pattern chunk {k}/{NCHUNK})", weight=4, timeout={"quick": 1200, "thorough": 5400}) for k in range(NCHUNK)]
 OBLIGATIONS += [
     Ob("O17.3", o17_naming, "naming an anonymous '*' changes nothing", weight=3),
     Ob("O17.4", o17_repeat, "a repeated name is a back-reference; everything else unchanged", weight=2),
+    Ob("O17.7", o17_removed_dir, "removed directory: recorded matches beneath it are reported", weight=3, timeout={"quick": 900, "thorough": 2400}),
     Ob("O17.6", o17_sites, "compile sites of the stored regex agree with NamedGlob", weight=2),
     Ob("O17.5", o17_update, "incremental update == rescan", weight=3, timeout={"quick": 900, "thorough": 5400}),
 ]
